@@ -211,6 +211,25 @@ impl<'ast> Visit<'ast> for LoopFinder {
                 ));
             }
         }
+        // D23: X.iter().position(|P| C)
+        if e.method == "position" && e.args.len() == 1 {
+            if let (syn::Expr::Closure(c), syn::Expr::MethodCall(it)) = (&e.args[0], &*e.receiver) {
+                if it.method == "iter" && it.args.is_empty() && c.inputs.len() == 1 && matches!(c.inputs[0], syn::Pat::Ident(_)) {
+                    let mut ef = EscapeFinder::default();
+                    ef.visit_expr(&c.body);
+                    if ef.escapes == 0 {
+                        let call = e.span().byte_range();
+                        let recv = it.receiver.span().byte_range();
+                        let pat = c.inputs[0].span().byte_range();
+                        let body = c.body.span().byte_range();
+                        self.vd.push(format!(
+                            "{{\"rule\":\"D23\",\"call\":[{},{}],\"recv\":[{},{}],\"pat\":[{},{}],\"body\":[{},{}]}}",
+                            call.start, call.end, recv.start, recv.end, pat.start, pat.end, body.start, body.end
+                        ));
+                    }
+                }
+            }
+        }
         // D21: OPT.is_some_and(|X| E)   (X an identifier, E without return/break/continue/?)
         if e.method == "is_some_and" && e.args.len() == 1 {
             if let syn::Expr::Closure(c) = &e.args[0] {
